@@ -1,4 +1,47 @@
-(* placeholder until Batch/Proofs*.v land: nothing is claimed proved yet *)
-From V Require Import C01.Glue.
-Theorem c01_placeholder : True. Proof. exact I. Qed.
-Print Assumptions c01_placeholder.
+(* C01 - Batch processors hand every accepted span/log to the exporter exactly once.
+   Property theorems only; proofs are in Batch/Proofs*.v and Batch/Theorems.v.  "reachable q b s": some event trace of
+   the acceptor LTS (any number of threads, any interleaving) leads from the initial state with max_queue_size q and
+   max_export_batch_size b to s. *)
+From V Require Import Batch.Model Batch.ProofsA Batch.ProofsB Batch.Theorems.
+From Coq Require Import List Arith.
+Import ListNotations.
+
+Theorem c01_exactly_once_in_queue_order : forall q b s, reachable q b s ->
+  concat (exported s) ++ pb s = firstn (deq s) (enq s) /\ deq s <= length (enq s).
+Proof. exact batch_exactly_once_fifo. Qed.
+Print Assumptions c01_exactly_once_in_queue_order.
+
+Theorem c01_nothing_delivered_twice : forall q b s, reachable q b s -> NoDup (enq s) -> NoDup (concat (exported s) ++ pb s).
+Proof. exact batch_no_duplicate. Qed.
+Print Assumptions c01_nothing_delivered_twice.
+
+Theorem c01_queue_bounded : forall q b s, reachable q b s -> length (queue s) <= Qsz s.
+Proof. exact batch_queue_bounded. Qed.
+Print Assumptions c01_queue_bounded.
+
+Theorem c01_drop_only_when_full : forall q b s t id s', reachable q b s ->
+  accept s (t, EBufAdd id false) = Some s' -> length (queue s) = Qsz s.
+Proof. exact batch_drop_only_when_full. Qed.
+Print Assumptions c01_drop_only_when_full.
+
+Theorem c01_no_drop_after_completed_flush : forall q b s t id s', reachable q b s ->
+  accept s (t, EBufAdd id false) = Some s' ->
+  forall j, 1 <= j <= notified s -> Qsz s <= length (enq s) - mark s j.
+Proof. exact batch_no_drop_after_completed_flush. Qed.
+Print Assumptions c01_no_drop_after_completed_flush.
+
+Theorem c01_producer_never_blocks : forall s t, t <> 0 ->
+  match ap s t with
+  | AOnEnd id => accept s (t, ELdShut (is_shut s)) <> None
+  | AOnEndChecked id => accept s (t, EBufAdd id (length (queue s) <? Qsz s)) <> None
+  | AOnEndAdded id => accept s (t, EBufSize (length (queue s))) <> None
+  | AOnEndOut id => accept s (t, ERetOnEnd id) <> None
+  | _ => True
+  end.
+Proof. exact batch_producer_never_blocks. Qed.
+Print Assumptions c01_producer_never_blocks.
+
+Theorem c01_nonvacuous : exists s, run (init 1 1) demo_trace = Some s /\ In (2, 1, true) (fl_done s) /\ sh_done s <> [] /\
+  dropped s = [12] /\ exported s = [[11]].
+Proof. exact demo_reachable. Qed.
+Print Assumptions c01_nonvacuous.
